@@ -1,4 +1,4 @@
-(* GENERATED from the Go sources of /var/tmp/mrepo by /verif/tools/gen_model — do not edit. *)
+(* GENERATED from the Go sources of /repo by /verif/tools/gen_model — do not edit. *)
 From Coq Require Import String.
 From OtpV Require Import Prelude Sha GoSem Rfc4648 Errors Decoder Otp Ocra Utils Suite Url.
 Open Scope N_scope.
@@ -261,10 +261,10 @@ Definition GenerateTOTP (fuel0 : nat) (junk_rfc4226BufPool : bytes) (secret : by
 
 Fixpoint ValidateTOTP_loop1 (fuel : nat) (fuel0 : nat) (junk_rfc4226BufPool : bytes) (skew : N) (code : bytes) (secretBuf : bytes) (counter : N) (param_ : (option param)) (i : Z) (kx : Z -> res (bool * (option err))) {struct fuel} : res (bool * (option err)) :=
   match fuel with O => OutOfFuel | S fuel =>
-  if (Z.leb i (to_int64 skew)) then (do t7 <- deref param_;
-  do t8 <- deref param_;
-  do t9 <- validateRFC4226 fuel0 junk_rfc4226BufPool code secretBuf (wrap64 (N.add counter (of_int64 i))) (p_digits t7) (p_alg t8);
-  let '(valid, err__2) := t9 in
+  if (Z.leb i (to_int64 skew)) then (do t6 <- deref param_;
+  do t7 <- deref param_;
+  do t8 <- validateRFC4226 fuel0 junk_rfc4226BufPool code secretBuf (wrap64 (N.add counter (of_int64 i))) (p_digits t6) (p_alg t7);
+  let '(valid, err__2) := t8 in
   if ((negb (is_some err__2)) && valid) then (Val (true, None))
   else
   let i := (wrap_int64 (Z.add i 1%Z)) in
@@ -275,29 +275,27 @@ Fixpoint ValidateTOTP_loop1 (fuel : nat) (fuel0 : nat) (junk_rfc4226BufPool : by
 Definition ValidateTOTP (fuel0 : nat) (junk_rfc4226BufPool : bytes) (secret : bytes) (code : bytes) (t : Z) (param_ : (option param)) : res (bool * (option err)) :=
   let kj1 := fun (param_ : (option param)) =>
   do t1 <- deref param_;
-  let period := (p_period t1) in
-  let kj2 := fun (period : N) =>
-  do t2 <- deref param_;
-  let window := (wrap64 (N.mul (p_skew t2) period)) in
-  do t3 <- udiv window period;
-  if (N.ltb 10%N t3) then (Val (false, (Some (ESent ErrInvalidSkew))))
+  if (N.ltb 10%N (p_skew t1)) then (Val (false, (Some (ESent ErrInvalidSkew))))
   else
-  do t4 <- DecodeSecret fuel0 secret;
-  let '(secretBuf, err_) := t4 in
+  do t2 <- DecodeSecret fuel0 secret;
+  let '(secretBuf, err_) := t2 in
   if (is_some err_) then (Val (false, err_))
   else
-  do t5 <- deref param_;
-  let skew := (p_skew t5) in
-  do t6 <- TimeCounterFunc t period;
-  let counter := t6 in
+  do t3 <- deref param_;
+  let period := (p_period t3) in
+  let kj2 := fun (period : N) =>
+  do t4 <- deref param_;
+  let skew := (p_skew t4) in
+  do t5 <- TimeCounterFunc t period;
+  let counter := t5 in
   let i := (wrap_int64 (Z.opp (to_int64 skew))) in
   ValidateTOTP_loop1 fuel0 fuel0 junk_rfc4226BufPool skew code secretBuf counter param_ i (fun (i : Z) =>
   Val (false, (Some (ESent ErrInvalidCode)))) in
   if (N.eqb period 0%N) then (let period := 30%N in
   kj2 period)
   else (kj2 period) in
-  if (negb (is_some param_)) then (do t10 <- deref g_DefaultTOTPParam;
-  let _def := t10 in
+  if (negb (is_some param_)) then (do t9 <- deref g_DefaultTOTPParam;
+  let _def := t9 in
   let param_ := (Some _def) in
   kj1 param_)
   else (kj1 param_).
